@@ -67,6 +67,7 @@ package pipeline
 //@   ghost g_clean bool = false
 //@   callee DecodeString(s) (e)
 //@     requires s == "{}"
+//@     preserves Event
 //@     set g_clean := true
 //@   callee DecodeToJson(root, b) (e)
 //@     requires root == event.Root && (g_clean || dec == decoder.JSON || dec == decoder.PROTOBUF)
